@@ -107,6 +107,17 @@ def _rows_with(grid, col, value):
     return [r for r in grid if len(r) > col and r[col] is not None and _cellval(r[col]) == value]
 
 
+def _strip_empty_styles(grid):
+    """Cells without value and formula only carry the style the template gave that physical row: not content."""
+    out = []
+    for r in grid:
+        row = [None if (c is not None and c[0] is None and not c[1] and c[2] is None) else c for c in r]
+        while row and row[-1] is None:
+            row.pop()
+        out.append(row)
+    return out
+
+
 def project_asset(reports, asset, prefix=""):
     """Everything the reports of a run say about one asset, in a form comparable between a run on
     all assets, a run with -a <asset> and a run on a world reduced to that asset."""
@@ -129,7 +140,7 @@ def project_asset(reports, asset, prefix=""):
                         if val == asset or (formula and formula.rstrip().endswith('"%s")' % asset)):
                             lines.append(r)
                 if lines and asset not in sname:
-                    proj["full:summary-lines"] = sorted(lines, key=repr)
+                    proj["full:summary-lines"] = sorted(_strip_empty_styles(lines), key=repr)
         elif kind.startswith("tax_report_jp"):
             for sname in order:
                 if asset in sname:
@@ -137,12 +148,12 @@ def project_asset(reports, asset, prefix=""):
                 else:
                     rows = _rows_with(sheets[sname], 0, asset)
                     if rows:
-                        proj["jp-summary:%s" % sname] = rows
+                        proj["jp-summary:%s" % sname] = _strip_empty_styles(rows)
         elif kind.startswith("tax_report_"):
             for sname in order:
                 rows = _rows_with(sheets[sname], 1, asset)
                 if rows:
-                    proj["tax:%s" % sname] = rows
+                    proj["tax:%s" % sname] = _strip_empty_styles(rows)
         elif kind == "open_positions":
             # Asset sheet rows: asset, holder, balance, unit cost, cost basis | weight, row-numbered formulas ...
             # Asset-Exchange rows: asset, holder, exchange, balance, unit cost, cost basis | weight, ...
